@@ -142,6 +142,52 @@ def pfi_dist(names, x, y, rows, n, model, loss):
     return dist
 
 
+
+# ------------------------------------------------------------------------------------------------
+# input classes "the explained data / the storage_length argument say something else than the storage content"
+def short_length(idx, m):
+    """An explicit `storage_length` SMALLER than the user-supplied storage (1 .. m-1): the statement's background population stays
+    the whole storage content."""
+    return 1 + (idx // 2) % (m - 1)
+
+
+def variant_flags(kind):
+    big, hold = kind.endswith("-big"), kind.endswith("-holdout")
+    return kind.replace("-big", "").replace("-holdout", ""), big, hold
+
+
+def variant_tag(big, hold, idx, m):
+    return (f"(user storage of {m} rows > storage_length={short_length(idx, m)})" if big else "") + \
+           ("(hold-out data set, storage holds other rows)" if hold else "")
+
+
+def holdout_batch_sage(run, model, names, loss, n, idx, m):
+    """A BatchSage whose storage is NOT empty and holds OTHER observations (other values, mostly another count) than the data set
+    handed to explain_many_original later: pre-filled storage passed to the constructor / update_storage calls / earlier
+    explain_one calls.  Original mode draws its background from the handed data set, whatever the storage holds."""
+    from ixai.explainer import BatchSage
+    from ixai.storage import BatchStorage, IntervalStorage
+    k = (m + 1, 1, m)[(idx // 2) % 3]
+    other = [{f: 50000000 + 1000 * t + j for j, f in enumerate(names)} for t in range(k)]
+    oys = [t + 2 for t in range(k)]
+    route = idx % 3
+    if route == 0:
+        st = IntervalStorage(size=k, store_targets=True) if idx % 2 else BatchStorage(store_targets=True)
+        for r, yy in zip(other, oys):
+            st.update(r, yy)
+        e = BatchSage(model, names, loss, n_inner_samples=n, storage=st)
+    else:
+        e = BatchSage(model, names, loss, n_inner_samples=n)
+        for t, (r, yy) in enumerate(zip(other, oys)):
+            if route == 1:
+                e.update_storage(r, yy)
+            else:
+                e.explain_one(r, yy, original_sage=(t % 2 == 1), verbose=False)
+    run.count("original-holdout-nonempty-storage")
+    run.nontriv(("holdout-route", route, k, m))
+    return e
+
+
 # ------------------------------------------------------------------------------------------------
 OUTCOME_CFGS = [
     # (explainer, strategy, d, m, n_inner)
@@ -161,7 +207,7 @@ def outcome_case(run, idx, cfgspec, runs, seed):
     from ixai.imputer import MarginalImputer
     kind, strat, d, m, n = cfgspec
     override = kind.endswith("-override")
-    kind = kind.replace("-override", "")
+    kind, big, hold = variant_flags(kind.replace("-override", ""))
     names = make_names("str", d)
     # (every other multi-label game uses a model whose LABEL SET depends on the input: a missing label counts as 0 in a mean)
     model = Models(("grow" if idx % 2 == 1 else "multi") if kind in ("sage", "batch") else "scalar", names, exact=True)
@@ -172,7 +218,7 @@ def outcome_case(run, idx, cfgspec, runs, seed):
     y = 7
     random.seed(seed)
     np.random.seed(seed)
-    tag = f"{kind}{'(per-call n_inner override)' if override else ''}/{strat}/d={d}/m={m}/n={n}"
+    tag = f"{kind}{'(per-call n_inner override)' if override else ''}{variant_tag(big, hold, idx, m)}/{strat}/d={d}/m={m}/n={n}"
     # exact law
     if kind == "sage":
         dist = chain_dist(names, x, y, rows, n, strat, model, loss, loss.one(y, normalize(model.one(x))))
@@ -218,15 +264,18 @@ def outcome_case(run, idx, cfgspec, runs, seed):
         st = IntervalStorage(size=m, store_targets=True)
         for r, yy in zip(rows[:-1], ys[:-1]):
             st.update(r, yy)
-        e = IntervalSage(model, names, loss, n_inner_samples=n, interval_length=1, storage_length=m, storage=st,
-                         imputer=MarginalImputer(model, strat, st))
+        # -big: the user's storage holds more rows than `storage_length` says; joint games then run on the explainer's DEFAULT imputer
+        if big:
+            run.count("interval-storage-exceeds-storage_length")
+        e = IntervalSage(model, names, loss, n_inner_samples=n, interval_length=1, storage_length=(short_length(idx, m) if big else m),
+                         storage=st, imputer=(None if big and strat == "joint" else MarginalImputer(model, strat, st)))
         e.explain_one(rows[-1], ys[-1], verbose=False)
 
         def draw():
             r = e.explain_one(rows[-1], ys[-1], update_storage=False, force_explain=True, verbose=False)
             return tuple(r[f] for f in names)
     else:
-        e = BatchSage(model, names, loss, n_inner_samples=n)
+        e = holdout_batch_sage(run, model, names, loss, n, idx, m) if hold else BatchSage(model, names, loss, n_inner_samples=n)
 
         def draw():
             r = e.explain_many_original(rows, ys, verbose=False)
@@ -300,6 +349,7 @@ def draw_case(run, idx, cfgspec, runs, seed):
     from ixai.storage import BatchStorage
     from ixai.imputer import MarginalImputer
     kind, strat, d, m, n = cfgspec
+    kind, _, hold = variant_flags(kind)
     names = make_names("str", d)
     clock = Clock()
     inputs = []
@@ -318,7 +368,7 @@ def draw_case(run, idx, cfgspec, runs, seed):
     x = {f: 9000000 + j for j, f in enumerate(names)}
     random.seed(seed)
     np.random.seed(seed)
-    tag = f"{kind}/{strat}/d={d}/m={m}/n={n}"
+    tag = f"{kind}{variant_tag(False, hold, idx, m)}/{strat}/d={d}/m={m}/n={n}"
     orders = collections.Counter()
     rowc = collections.defaultdict(collections.Counter)     # cell family -> counts
     pairs = collections.defaultdict(collections.Counter)
@@ -391,7 +441,8 @@ def draw_case(run, idx, cfgspec, runs, seed):
                         pairs[("innerpair", min(step, 1))][(prev_row, cur)] += 1
                     prev_row = cur
     else:
-        e = BatchSage(model, names, loss, n_inner_samples=n)
+        # (-holdout: the storage holds other observations; every unrevealed value must still stem from ONE row of the handed data set)
+        e = holdout_batch_sage(run, model, names, loss, n, idx, m) if hold else BatchSage(model, names, loss, n_inner_samples=n)
         ys = list(range(m))
         pos_sel = sorted({0, 1, m // 2, m - 1} & set(range(m)))
         for _ in range(runs):
@@ -685,6 +736,94 @@ def moving_case(run, idx, cfgspec, runs, seed):
 
 
 
+# (d, rows the USER-SUPPLIED IntervalStorage holds, storage_length handed to IntervalSage (None: left at its default), n_inner,
+#  interval_length, explanations (None: R_INTERVAL_BIG))
+INTERVAL_BIG_CFGS = [(3, 12, 5, 2, 1, None), (2, 6, 1, 1, 3, None), (2, 1200, None, 1, 100, 24)]
+R_INTERVAL_BIG = {"quick": 1500, "thorough": 20000}
+
+
+def interval_big_case(run, idx, cfgspec, runs, seed):
+    """IntervalSage on its DEFAULT imputer with a user-supplied IntervalStorage that holds more rows than `storage_length` says
+    (explicit small value, or the untouched default next to a larger storage), fed through explain_one (update_storage=True):
+    the background row of every evaluation, decoded from the model inputs, must be one CURRENTLY stored row, uniform over the whole
+    storage content."""
+    from ixai.explainer import IntervalSage
+    from ixai.storage import IntervalStorage
+    d, m, sl, n, every, n_expl = cfgspec
+    n_expl = n_expl or runs
+    names = make_names("str", d)
+    random.seed(seed)
+    np.random.seed(seed)
+    inputs = []
+
+    def model(xx):
+        if isinstance(xx, dict):
+            inputs.append(xx)
+            return {"output": 0.0}
+        return [{"output": 0.0} for _ in xx]
+    st = IntervalStorage(size=m, store_targets=True)
+    kw = {} if sl is None else {"storage_length": sl}
+    e = IntervalSage(model, names, lambda a, b: 0.0, n_inner_samples=n, interval_length=every, storage=st, **kw)
+    tag = f"interval(user storage of {m} rows, storage_length={'default' if sl is None else sl})/joint/d={d}/n={n}"
+    run.count("interval-storage-exceeds-storage_length")
+    B = nb(m)
+    rowc = collections.defaultdict(collections.Counter)
+    fails = []
+    judged = undecodable = 0
+    for t in range(m - 1):                                    # fill phase (explanations on a partly filled storage are not judged)
+        st.update({f: 1000 * (t + 1) + j for j, f in enumerate(names)}, t)
+    done = 0
+    t = m - 1
+    while done < n_expl and len(fails) <= 5:
+        x = {f: 1000 * (t + 1) + j for j, f in enumerate(names)}
+        del inputs[:]
+        e.explain_one(x, t, verbose=False)
+        t += 1
+        if not inputs:
+            continue
+        done += 1
+        window = list(st.get_data()[0])
+        if len(inputs) != len(window) * d * n or len(window) != m:
+            undecodable += 1
+            continue
+        pos = {(j, r[f]): p_ for p_, r in enumerate(window) for j, f in enumerate(names)}
+        for c_, xi in enumerate(inputs):
+            i, step = c_ // (d * n), (c_ // n) % d
+            if step == d - 1:
+                continue                                      # nothing imputed in the last step of a chain
+            src_ = {pos.get((j, xi[f])) for j, f in enumerate(names)}
+            judged += 1
+            if None in src_:
+                fails.append(("background-not-current", f"{tag} observation {t}: evaluated input {xi!r} carries a value no CURRENTLY stored "
+                                                        f"observation has"))
+                continue
+            src_.discard(i)
+            if len(src_) > 1:
+                fails.append(("joint-mixed-rows", f"{tag}: one joint evaluation mixes stored rows {sorted(src_)} (explained row {i})"))
+                continue
+            r = src_.pop() if src_ else i
+            rowc[("row", min(step, 2))][bucket(r, m)] += 1
+    run.ok(judged, kind="draws:interval-user-storage")
+    run.count("interval-big-undecodable-explanations", undecodable)
+    ct = CellTests(max(1, B * len(rowc)), eps=EPS / (2 * len(DRAW_CFGS) + 64))
+    for fam, cnt in sorted(rowc.items(), key=repr):
+        tot = sum(cnt.values())
+        for b in range(B):
+            size = 1 if m <= 7 else len([r for r in range(m) if bucket(r, m) == b])
+            r = ct.test(cnt.get(b, 0), tot, size / m, f"{tag} {fam} background row{' bucket' if m > 7 else ''} {b} (position in the storage, oldest first)")
+            if r:
+                fails.append(("row-distribution", r))
+            if cnt.get(b):
+                run.nontriv(("interval-big", tag, repr(fam), b))
+    run.count("cell-tests", ct.done)
+    run.notes[f"draws {tag}"] = {"explanations": done, "evaluations_judged": judged, "row_families": len(rowc), "min_p": ct.min_p, "mdd": ct.max_mdd}
+    seen = set()
+    for mech, msg in fails:
+        if mech not in seen:
+            seen.add(mech)
+            run.violation(f"interval:{mech}", msg + f" ({done} explanations)", {"config": cfgspec, "runs": runs, "seed": seed})
+
+
 def size_sweep_case(run, sizes, runs, seed):
     """Thin slices of the size axis: for EVERY storage length in `sizes` the background row drawn by the marginal
     imputer (both strategies) must be uniform - coarse power per size, but no size is left out."""
@@ -797,6 +936,14 @@ EXACT_CFGS = [
     ("interval", "product", 2, 3, 1), ("interval-update", "joint", 2, 2, 1), ("interval-update", "product", 2, 3, 1), ("original", None, 2, 3, 1), ("original", None, 3, 2, 1), ("original", None, 2, 2, 2),
 ]
 
+# the storage_length argument / the storage content say something else than the background population of the statement
+EXACT_VARIANT_CFGS = [
+    ("interval-big", "joint", 2, 3, 1), ("original-holdout", None, 2, 2, 1), ("interval-update-big", "joint", 2, 2, 1), ("original-holdout", None, 3, 2, 1),
+    ("interval-big", "product", 2, 3, 1), ("original-holdout", None, 2, 2, 2), ("interval-big", "joint", 3, 2, 1), ("interval-update-big", "product", 2, 3, 1),
+    ("interval-big", "joint", 2, 2, 1),
+]
+OUTCOME_VARIANT_CFGS = [("interval-big", "joint", 2, 3, 1), ("original-holdout", None, 2, 3, 1)]
+DRAW_VARIANT_CFGS = [("original-holdout", None, 3, 4, 2), ("original-holdout", None, 2, 20, 1), ("original-holdout", None, 2, 6, 1)]
 
 def exact_case(run, idx, cfgspec, seed):
     """The implementation's exact outcome law (all its draws enumerated with their weights) against the exact law implied by
@@ -807,7 +954,7 @@ def exact_case(run, idx, cfgspec, seed):
     from ..exactlaw import exact_law, Budget
     kind, strat, d, m, n = cfgspec
     override = kind.endswith("-override")
-    kind = kind.replace("-override", "")
+    kind, big, hold = variant_flags(kind.replace("-override", ""))
     names = make_names("str", d)
     # (every other multi-label game uses a model whose LABEL SET depends on the input: a missing label counts as 0 in a mean)
     model = Models(("grow" if idx % 2 == 1 else "multi") if kind in ("sage", "batch") else "scalar", names, exact=True)
@@ -819,7 +966,7 @@ def exact_case(run, idx, cfgspec, seed):
         import collections
         x = collections.Counter(x)           # observations may be dict subclasses (Counter.update() adds instead of replacing)
     y = 7
-    tag = f"exact/{kind}{'(override)' if override else ''}/{strat}/d={d}/m={m}/n={n}"
+    tag = f"exact/{kind}{'(override)' if override else ''}{variant_tag(big, hold, idx, m)}/{strat}/d={d}/m={m}/n={n}"
     if kind == "sage":
         dist = chain_dist(names, x, y, rows, n, strat, model, loss, loss.one(y, normalize(model.one(x))))
     elif kind == "pfi":
@@ -845,8 +992,10 @@ def exact_case(run, idx, cfgspec, seed):
         st = IntervalStorage(size=m, store_targets=True)
         for r, yy in zip(rows, ys):
             st.update(r, yy)
-        base = IntervalSage(model, names, loss, n_inner_samples=n, interval_length=1, storage_length=m, storage=st,
-                            imputer=MarginalImputer(model, strat, st))
+        if big:
+            run.count("interval-storage-exceeds-storage_length")
+        base = IntervalSage(model, names, loss, n_inner_samples=n, interval_length=1, storage_length=(short_length(idx, m) if big else m),
+                            storage=st, imputer=(None if big and strat == "joint" else MarginalImputer(model, strat, st)))
 
         def scen():
             e2 = copy.deepcopy(base)
@@ -878,15 +1027,17 @@ def exact_case(run, idx, cfgspec, seed):
         st = IntervalStorage(size=m, store_targets=True)
         for r, yy in zip(rows[:-1], ys[:-1]):
             st.update(r, yy)
-        e = IntervalSage(model, names, loss, n_inner_samples=n, interval_length=1, storage_length=m, storage=st,
-                         imputer=MarginalImputer(model, strat, st))
+        if big:
+            run.count("interval-storage-exceeds-storage_length")
+        e = IntervalSage(model, names, loss, n_inner_samples=n, interval_length=1, storage_length=(short_length(idx, m) if big else m),
+                         storage=st, imputer=(None if big and strat == "joint" else MarginalImputer(model, strat, st)))
         e.explain_one(rows[-1], ys[-1], verbose=False)
 
         def scen():
             r = e.explain_one(rows[-1], ys[-1], update_storage=False, force_explain=True, verbose=False)
             return tuple(r[f] for f in names)
     else:
-        e = BatchSage(model, names, loss, n_inner_samples=n)
+        e = holdout_batch_sage(run, model, names, loss, n, idx, m) if hold else BatchSage(model, names, loss, n_inner_samples=n)
 
         def scen():
             r = e.explain_many_original(rows, ys, verbose=False)
@@ -987,7 +1138,8 @@ def main(run):
     run.assumptions = ["calls are independent draws (storage frozen with update_storage=False, generators seeded once per configuration)",
                        "false-alarm probability <= 1e-9 per run; a bias below the minimal detectable deviation in notes can be missed",
                        "storage sizes / games other than the listed ones are not exercised"]
-    run.require_count("draw-level-row-cells", "draw-level-pair-cells")
+    run.require_count("draw-level-row-cells", "draw-level-pair-cells", "interval-storage-exceeds-storage_length",
+                      "original-holdout-nonempty-storage")
     run.require("ixai/explainer/sage/incremental.py:IncrementalSage.explain_one", "ixai/explainer/pfi.py:IncrementalPFI.explain_one",
                 "ixai/explainer/sage/batch.py:BatchSage.explain_many", "ixai/explainer/sage/batch.py:BatchSage.explain_many_original",
                 "ixai/imputer/marginal_imputer.py:MarginalImputer.impute")
@@ -1005,7 +1157,11 @@ def main(run):
         + [("order", i, c) for i, c in enumerate(ORDER_CFGS)] \
         + ([("order-deep", i, c) for i, c in enumerate(ORDER_DEEP_CFGS)] if run.tier == "thorough" else []) + [("moving", i, c) for i, c in enumerate(MOVING_CFGS)] \
         + [("wide", 0, None), ("sizes", 0, list(range(1, 36))), ("sizes", 1, list(range(36, 71)) + [127, 128, 129, 255, 256, 257, 1025])] \
-        + [("exact", i, c) for i, c in enumerate(EXACT_CFGS)] + [("exact-rows", 0, list(range(1, 41))), ("exact-rows", 1, list(range(41, 81)) + [127, 128, 129, 255, 256, 257])]
+        + [("exact", i, c) for i, c in enumerate(EXACT_CFGS)] + [("exact-rows", 0, list(range(1, 41))), ("exact-rows", 1, list(range(41, 81)) + [127, 128, 129, 255, 256, 257])] \
+        + [("exact", len(EXACT_CFGS) + i, c) for i, c in enumerate(EXACT_VARIANT_CFGS)] \
+        + [("interval-big", i, c) for i, c in enumerate(INTERVAL_BIG_CFGS)] \
+        + [("draw", len(DRAW_CFGS) + 2 + i, c) for i, c in enumerate(DRAW_VARIANT_CFGS)] \
+        + [("outcome-variant", len(OUTCOME_CFGS) + 2 + i, c) for i, c in enumerate(OUTCOME_VARIANT_CFGS)]
     # every shard must touch every anchor: shards run a slice of jobs, coverage is merged by the parent
     for j, (what, i, c) in enumerate(jobs):
         if j % nsh != sh:
@@ -1013,6 +1169,8 @@ def main(run):
         seed = run.shard_seed * 31 + j
         if what == "outcome":
             outcome_case(run, i, c, R_OUTCOME[run.tier], seed)
+        elif what == "outcome-variant":
+            outcome_case(run, i, c, R_OUTCOME[run.tier] // 2, seed)
         elif what == "order":
             order_case(run, i, c, R_ORDER[run.tier], seed)
         elif what == "order-deep":
@@ -1023,6 +1181,8 @@ def main(run):
             exact_case(run, i, c, seed)
         elif what == "exact-rows":
             exact_rows_case(run, c)
+        elif what == "interval-big":
+            interval_big_case(run, i, c, R_INTERVAL_BIG[run.tier], seed)
         elif what == "wide":
             wide_case(run, seed, run.tier == "thorough")
         elif what == "sizes":
